@@ -14,6 +14,6 @@ else
   shift
 fi
 for p in "$@"; do
-  (cd /verif && FROUROS_REPO="$WT" PYTHONPATH="$WT" PYTHONHASHSEED=0 PYTHONDONTWRITEBYTECODE=1 PYTHONWARNINGS=ignore \
+  (cd /verif && VERIF_OUT=/tmp/fvseed_out FROUROS_REPO="$WT" PYTHONPATH="$WT" PYTHONHASHSEED=0 PYTHONDONTWRITEBYTECODE=1 PYTHONWARNINGS=ignore \
      /venv/bin/python /verif/harness/main.py "$p" --tier quick 2>&1 | grep -E "^(VIOLATION|KNOWN|\[C)" | cut -c1-300) || true
 done
